@@ -83,6 +83,46 @@ class Ctx(object):
                             % (spec, cfg, inv, r.violated))
         return r
 
+    def binding_selftest(self, spec, cfg, traces, rejected, mutators, per_mutator=4):
+        """Demonstrated binding: accepted recorded traces are corrupted in one field / lose one event and must then be
+        rejected by the trace specification (otherwise the trace specification constrains too little: machinery failure).
+        mutators: list of (name, fn) with fn(trace_copy) -> corrupted trace, or None if not applicable to that trace."""
+        import copy
+        bad_tids = {r[0] for r in rejected}
+        good = [t for t in traces if t["tid"] not in bad_tids]
+        bad = []
+        names = []
+        for name, fn in mutators:
+            k = 0
+            for t in good:
+                t2 = fn(copy.deepcopy(t))
+                if t2 is None:
+                    continue
+                t2 = dict(t2)
+                t2["tid"] = len(bad) + 1
+                bad.append(t2)
+                names.append(name)
+                k += 1
+                if k >= per_mutator:
+                    break
+            if k == 0:
+                # no accepted trace offers the event this corruption needs (possible when the implementation misbehaves and the
+                # traces that would qualify are the rejected ones): recorded, never an error - a violation must not be masked
+                self.notes.setdefault("corruptions_not_applicable", []).append(name)
+        if not bad:
+            return 0
+        saved = self.traces_validated
+        rej = self.validate_traces(spec, cfg, bad, shards=4, expect_reject=True)
+        self.traces_validated = saved
+        got = {r[0] for r in rej}
+        missed = [names[i] for i in range(len(bad)) if (i + 1) not in got]
+        if missed:
+            raise Machinery("binding self-test: corrupted traces accepted by %s: %s" % (spec, sorted(set(missed))))
+        self.notes["corrupted_traces_rejected"] = self.notes.get("corrupted_traces_rejected", 0) + len(bad)
+        self.notes.setdefault("corruptions", [])
+        self.notes["corruptions"] = sorted(set(self.notes["corruptions"]) | set(names))
+        return len(bad)
+
     def check_proof(self, module, timeout=900):
         """Machine-checked (TLAPS) proof that the invariants hold for unbounded constants: spec/proofs/<module>.tla is
         re-checked from scratch (fresh directory, no fingerprint cache); every obligation must be proved."""
